@@ -152,7 +152,7 @@ class RuleGen:
         if ty == "float":
             return atom(cfloat(r.choice([0.5, 1.5, 2.0, 0.25, -1.5, 3.75, 0.1, 1e-3 * r.range(1, 3)])))
         if ty == "str":
-            return atom(cstr(r.choice(["", "a", "ab", "b", "xy", "a b", 'q"t', "é"])))
+            return atom(cstr(r.choice(["", "a", "ab", "b", "xy", "a b", 'q"t', "é", "\u0080"])))
         return atom(cbool(r.chance(0.5)))
 
     def read(self, ty):
